@@ -235,6 +235,54 @@ pub fn typist(comp: &str, seed: u64, runs: usize, n: usize, w: &mut dyn Write) {
     }
 }
 
+/// pipeline driver: the way an application uses the crate - bytes go in through add_byte (or as
+/// whole words / bit by bit), and every key event that comes back is handed to process_keyevent
+/// before the next byte. Byte choice is biased towards real make/break/prefix bytes, so that
+/// modifier presses actually change the event stage while later bytes are decoded.
+pub fn pipeline(comp: &str, seed: u64, runs: usize, n: usize, w: &mut dyn Write) {
+    let mut r = StdRng::seed_from_u64(seed ^ 0x9e37_79b9);
+    for _ in 0..runs {
+        let mut m = make(comp);
+        let st: Value = stage_json(&m);
+        writeln!(w, "{}", json!({"in": ["reset"], "ret": ["none"], "q": ["noq"], "obs": m.obs(), "stage": st})).unwrap();
+        let mut count = 0usize;
+        let mut alive = true;
+        while count < n && alive {
+            let b = pick_byte(&mut r);
+            // which entry point carries the byte
+            let inputs: Vec<Input> = match r.gen_range(0..10) {
+                0..=6 => vec![Input::Byte(b)],
+                7..=8 => vec![Input::Word(enc(b))],
+                _ => (0..11).map(|i| Input::Bit((enc(b) >> i) & 1 == 1)).collect(),
+            };
+            let mut event: Option<Input> = None;
+            for inp in inputs {
+                match apply_caught(&mut m, &inp) {
+                    Ok(s) => {
+                        let stj: Value = stage_json(&m);
+                        writeln!(w, "{}", json!({"in": inp.to_json(), "ret": s.out, "q": s.query, "obs": m.obs(), "stage": stj})).unwrap();
+                        if s.out[0] == "ev" {
+                            if let (Some(k), Some(st)) = (key_by_name(s.out[1].as_str().unwrap_or("")), state_by_name(s.out[2].as_str().unwrap_or(""))) {
+                                event = Some(Input::Key(k, st));
+                            }
+                        }
+                    }
+                    Err(msg) => {
+                        writeln!(w, "{}", json!({"in": inp.to_json(), "ret": ["panic", msg], "q": ["noq"], "obs": [-1, "?"], "stage": []})).unwrap();
+                        alive = false;
+                        break;
+                    }
+                }
+                count += 1;
+            }
+            if let (true, Some(ev)) = (alive, event) {
+                alive = log(w, &mut m, &ev);
+                count += 1;
+            }
+        }
+    }
+}
+
 /// replay a scripted list of scenarios: JSON array of arrays of inputs, each on a fresh object
 pub fn scripted(comp: &str, scenarios: &Value, w: &mut dyn Write) {
     for sc in scenarios.as_array().expect("scenarios: array") {
